@@ -26,11 +26,18 @@ type SpecEnv struct {
 	depth   int
 	result  *Val
 	fn      *ssa.Function // function whose parameter names are in scope (may differ from fr.fn)
+	freePtrs map[string]freeBinding
 }
 
 func newBigU(u uint64) *big.Int { return new(big.Int).SetUint64(u) }
 
 type specErr struct{ msg string }
+
+// freeBinding: the box of a captured variable (closure contracts applied at call sites)
+type freeBinding struct {
+	ptr *Val
+	t   types.Type
+}
 
 // skipClause: the clause mentions labels internal to the callee and cannot be used at a call site
 type skipClause struct{}
@@ -350,6 +357,12 @@ func (e *SpecEnv) ident(x *SExpr) *Val {
 				}
 			}
 		}
+	}
+	// captured variables of a closure whose contract is applied at a call site: the variable's content in the state
+	// the expression is evaluated in
+	if fb, ok := e.freePtrs[name]; ok {
+		a := e.run.addrOf(fb.ptr, e.te)
+		return e.run.load(e.st, a, fb.t, e.te)
 	}
 	if e.fr != nil {
 		fr := e.fr
